@@ -11,7 +11,7 @@ use std::{
     io::{IoSlice, IoSliceMut},
     net::{AddrParseError, SocketAddr},
     os::unix::{
-        io::{FromRawFd, IntoRawFd, RawFd},
+        io::{FromRawFd, IntoRawFd, OwnedFd, RawFd},
         net::UnixStream as StdUnixStream,
     },
 };
@@ -196,7 +196,27 @@ impl ScmSocket {
 
         debug!("{} received :{:?}", self.fd, (size, file_descriptor_length));
 
-        let listeners_count = ListenersCount::decode_length_delimited(&buf[..size])
+        let listeners = Self::pair_listeners(&buf[..size], &received_fds, file_descriptor_length);
+        if listeners.is_err() {
+            // recvmsg already installed the descriptors in this process. No
+            // table is returned to hand them over, so close them here or they
+            // keep the listening sockets open forever.
+            for fd in &received_fds[..file_descriptor_length] {
+                // SAFETY: `*fd` was just received over SCM_RIGHTS and nothing
+                // else owns it; dropping the `OwnedFd` closes it exactly once.
+                drop(unsafe { OwnedFd::from_raw_fd(*fd) });
+            }
+        }
+        listeners
+    }
+
+    /// Decode the manifest and pair its addresses with the received descriptors
+    fn pair_listeners(
+        manifest: &[u8],
+        received_fds: &[RawFd; MAX_FDS_OUT],
+        file_descriptor_length: usize,
+    ) -> Result<Listeners, ScmSocketError> {
+        let listeners_count = ListenersCount::decode_length_delimited(manifest)
             .map_err(ScmSocketError::DecodeError)?;
 
         // Validate the manifest before indexing into the fixed-size FD array.
